@@ -6,8 +6,11 @@ package engdkgrun
 import (
 	"encoding/binary"
 	"fmt"
+	"path/filepath"
+	"regexp"
 	"sort"
 	"strings"
+	"sync"
 	"time"
 
 	"golang.org/x/crypto/blake2b"
@@ -75,10 +78,10 @@ type pHashIn struct {
 }
 
 type pConfig struct {
-	New, Old     []pNode // only Index and Key are meaningful
-	Coeffs       [][]byte
-	Thr, OldThr  int64
-	HasShare     bool
+	New, Old    []pNode // only Index and Key are meaningful
+	Coeffs      [][]byte
+	Thr, OldThr int64
+	HasShare    bool
 }
 
 // keyOK is the oracle bit of the model: do these bytes unmarshal to a point of the key group?
@@ -178,10 +181,63 @@ func hashOf(g *pGroup) ([]byte, pHashIn) {
 
 // ---- Coq terms ----
 
-func cStr(s string) string { return emit.Bytes([]byte(s)) }
+// Long byte strings (keys, signatures, commitments, hashes) occur in many cases; each distinct
+// one is defined once per case file (Definition zbN : bytes := [...]) and referred to by name,
+// which keeps the files small (Coq elaborates long list literals slowly).
+var (
+	dictMu    sync.Mutex
+	dictNames = map[string]string{}
+	dictDefs  = map[string]string{}
+)
+
+func cB(b []byte) string {
+	if len(b) <= 6 {
+		return emit.Bytes(b)
+	}
+	dictMu.Lock()
+	defer dictMu.Unlock()
+	if n, ok := dictNames[string(b)]; ok {
+		return n
+	}
+	n := fmt.Sprintf("zb%d", len(dictNames))
+	dictNames[string(b)] = n
+	dictDefs[n] = fmt.Sprintf("Definition %s : list Z := (%s)%%Z.", n, emit.Bytes(b))
+	return n
+}
+
+var dictRef = regexp.MustCompile(`\bzb\d+\b`)
+
+// shard writes the case files (at most per cases each) with the definitions each one needs.
+func shard(r *emit.Report, dir, prefix string, requires []string, cases, descr []string, per int) error {
+	for i, k := 0, 0; i < len(cases); i, k = i+per, k+1 {
+		j := i + per
+		if j > len(cases) {
+			j = len(cases)
+		}
+		seen := map[string]bool{}
+		req := append([]string{}, requires...)
+		for _, c := range cases[i:j] {
+			for _, n := range dictRef.FindAllString(c, -1) {
+				if !seen[n] {
+					seen[n] = true
+					req = append(req, dictDefs[n])
+				}
+			}
+		}
+		name := fmt.Sprintf("%s_%03d.v", prefix, k)
+		if err := emit.CaseFile(filepath.Join(dir, name), req, "dcase", "mismatches", cases[i:j]); err != nil {
+			return err
+		}
+		r.CaseFiles = append(r.CaseFiles, name)
+		r.CaseIndex[name] = descr[i:j]
+	}
+	return nil
+}
+
+func cStr(s string) string { return cB([]byte(s)) }
 
 func cPart(p pPart) string {
-	return fmt.Sprintf("(mkP %s %s %s %s)", cStr(p.Addr), emit.Bytes(p.Key), emit.Bytes(p.Sig), emit.Bool(p.KeyOK))
+	return fmt.Sprintf("(mkP %s %s %s %s)", cStr(p.Addr), cB(p.Key), cB(p.Sig), emit.Bool(p.KeyOK))
 }
 
 func cParts(ps []pPart) string {
@@ -195,7 +251,7 @@ func cParts(ps []pPart) string {
 func cBytesList(bs [][]byte) string {
 	s := make([]string, len(bs))
 	for i, b := range bs {
-		s[i] = emit.Bytes(b)
+		s[i] = cB(b)
 	}
 	return emit.List(s)
 }
@@ -203,7 +259,7 @@ func cBytesList(bs [][]byte) string {
 func cNodes(ns []pNode) string {
 	s := make([]string, len(ns))
 	for i, n := range ns {
-		s[i] = fmt.Sprintf("(mkN %d %s %s %s)", n.Index, emit.Bytes(n.Key), cStr(n.Addr), emit.Bytes(n.Sig))
+		s[i] = fmt.Sprintf("(mkN %d %s %s %s)", n.Index, cB(n.Key), cStr(n.Addr), cB(n.Sig))
 	}
 	return emit.List(s)
 }
@@ -211,14 +267,14 @@ func cNodes(ns []pNode) string {
 func cIdxKeys(ns []pNode) string {
 	s := make([]string, len(ns))
 	for i, n := range ns {
-		s[i] = fmt.Sprintf("(%d, %s)", n.Index, emit.Bytes(n.Key))
+		s[i] = fmt.Sprintf("(%d, %s)", n.Index, cB(n.Key))
 	}
 	return emit.List(s)
 }
 
 func cGroup(g *pGroup) string {
 	return fmt.Sprintf("(mkG %s %s %s %s %s %s %s %s %s %s)", cStr(g.ID), emit.Z(g.Threshold), emit.Z(g.Period), cStr(g.Scheme),
-		emit.Z(g.Catchup), emit.Z(g.GenesisTime), emit.Bytes(g.GenesisSeed), emit.Z(g.Transition), cNodes(g.Nodes), cBytesList(g.Public))
+		emit.Z(g.Catchup), emit.Z(g.GenesisTime), cB(g.GenesisSeed), emit.Z(g.Transition), cNodes(g.Nodes), cBytesList(g.Public))
 }
 
 func cOptGroup(g *pGroup) string {
@@ -230,7 +286,7 @@ func cOptGroup(g *pGroup) string {
 
 func cState(s pState) string {
 	return fmt.Sprintf("(mkS %s %s %s %s %s %s %s %s %s %s %s %s)", cStr(s.BeaconID), emit.Z(s.Epoch), emit.Z(s.Threshold), cStr(s.Scheme),
-		emit.Bool(s.SchemeOK), emit.Z(s.GenesisTime), emit.Bytes(s.GenesisSeed), emit.Z(s.Catchup), emit.Z(s.Period),
+		emit.Bool(s.SchemeOK), emit.Z(s.GenesisTime), cB(s.GenesisSeed), emit.Z(s.Catchup), emit.Z(s.Period),
 		cParts(s.Remaining), cParts(s.Joining), cOptGroup(s.FinalGroup))
 }
 
